@@ -15,7 +15,7 @@ from ..gen.tape import Tape, tapes
 
 SOFT_LIMIT_S = 10.0      # the property's per-input budget for <= 4 KB
 CONFIRM_LIMIT_S = 30.0   # a candidate is re-run alone with this budget before it is reported
-HARD_LIMIT_S = 90.0      # uninterruptible hang (C code): the worker saves the case and exits
+HARD_LIMIT_S = 75.0      # uninterruptible hang (C code): the parent saves the case and kills the worker
 
 _DELIMS = set(string.punctuation + string.digits)
 _MARKER_CHARS = set('>-+*.)')
@@ -118,6 +118,72 @@ def _watchdog():
 
 
 _wd_started = []
+_hb = {'file': None}
+
+
+def _hb_dir(parent_pid):
+    import tempfile
+    return os.path.join(tempfile.gettempdir(), 'vf-c01-heartbeat-%d' % parent_pid)
+
+
+def _heartbeat(case, part_name):
+    """Tell the parent which case this process is working on: the regex engine neither handles signals nor
+    releases the GIL, so a hang inside it can only be detected (and ended) from another process."""
+    f = _hb['file']
+    if f is None or _hb.get('pid') != os.getpid():
+        d = _hb_dir(os.getppid())
+        os.makedirs(d, exist_ok=True)
+        f = _hb['file'] = open(os.path.join(d, '%d.json' % os.getpid()), 'w')
+        _hb['pid'] = os.getpid()
+    f.seek(0)
+    f.write(json.dumps({'t0': time.time(), 'part': part_name, 'case': case}) if case is not None else '{}')
+    f.truncate()
+    f.flush()
+
+
+class HangMonitor:
+    """Parent-side: kills a worker that has been on one case for HARD_LIMIT_S seconds and saves that case."""
+
+    def __init__(self):
+        self.dir = _hb_dir(os.getpid())
+        self._stop = threading.Event()
+        self.thread = threading.Thread(target=self._loop, daemon=True)
+        self.thread.start()
+
+    def _loop(self):
+        import signal as _signal
+        while not self._stop.wait(3):
+            try:
+                names = os.listdir(self.dir)
+            except OSError:
+                continue
+            for name in names:
+                path = os.path.join(self.dir, name)
+                try:
+                    with open(path) as f:
+                        hb = json.load(f)
+                except (OSError, ValueError):
+                    continue
+                if hb and time.time() - hb.get('t0', time.time()) > HARD_LIMIT_S:
+                    pid = int(name.split('.')[0])
+                    os.makedirs(core.REPLAY_DIR, exist_ok=True)
+                    with open(os.path.join(core.REPLAY_DIR, 'C01-hang-%d.json' % pid), 'w') as f:
+                        json.dump({'property': 'C01', 'part': hb.get('part', 'random'), 'case': hb['case'],
+                                   'failure': {'clause': 'termination', 'sig': 'termination:no result within %ds (worker killed)' % HARD_LIMIT_S,
+                                               'detail': 'no return within %d s; the process did not react to the alarm signal' % HARD_LIMIT_S}}, f)
+                    try:
+                        os.kill(pid, _signal.SIGKILL)
+                    except OSError:
+                        pass
+                    try:
+                        os.unlink(path)
+                    except OSError:
+                        pass
+
+    def stop(self):
+        import shutil
+        self._stop.set()
+        shutil.rmtree(self.dir, ignore_errors=True)
 
 
 def check_case(case, part_name):
@@ -125,6 +191,7 @@ def check_case(case, part_name):
         th = threading.Thread(target=_watchdog, daemon=True)
         th.start()
         _wd_started.append(th)
+    _heartbeat(case, part_name)
     labels = ('renderer:' + case['renderer'], 'form:' + case.get('form', 'str'))
     if 'pool' in case:
         labels += ('pool:' + case['pool'],)
@@ -144,6 +211,7 @@ def check_case(case, part_name):
             labels += ('timeout-candidate-not-confirmed',)
     finally:
         _current['case'] = None
+        _heartbeat(None, part_name)
     if kind == 'exc':
         why = admissible(payload, case)
         if why:
@@ -327,6 +395,9 @@ class C01(Prop):
         'termination is judged by wall clock: 10 s per input (<= 4 KB), candidates re-run with 30 s; a time-out that is not '
         'confirmed is counted, not reported',
     )
+
+    def start_monitor(self, violations_hook=None):
+        return HangMonitor()
 
     def parts(self):
         return [Random(), Exhaustive(), ExhaustiveHtml7(), Atheris()]
